@@ -39,6 +39,7 @@ STRATA = [
     ("deep", 1200, 20000),
     ("degenerate", 1200, 20000),
     ("huge-cost", 900, 12000),
+    ("neg-dag", 1200, 15000),
     ("larger", 120, 2500),
     ("scale", 1, 12),
     ("ns-maxiter", 500, 8000),
@@ -327,6 +328,22 @@ def gen(stratum, rng, tier):
         d = _demand(rng, n, arcs, s, t) if rng.random() < 0.5 else None
         return _case(rng, n, arcs, s if d is not None else None, t if d is not None else None, d, multi)
 
+    if stratum == "neg-dag":
+        # dense acyclic networks, most costs negative, one or two units to ship and every other node a pure transit node:
+        # long runs of pivots that move no flow (degenerate pivots are progress here, not cycling)
+        n = rng.randint(6, 10)
+        order = list(range(n))
+        rng.shuffle(order)
+        negp = rng.choice([0.6, 0.7, 0.8])
+        arcs = []
+        for _ in range(int(rng.choice([2.5, 3.0, 3.5]) * n)):
+            i, j = sorted(rng.sample(range(n), 2))
+            w = -rng.randint(1, 9) if rng.random() < negp else rng.randint(0, 9)
+            arcs.append((order[i], order[j], rng.randint(1, 3), w))
+        q = rng.randint(1, 2)
+        multi = [0] * n
+        multi[order[0]], multi[order[-1]] = q, -q
+        return _case(rng, n, arcs, order[0], order[-1], q, multi)
     if stratum == "scale":
         # a pipeline of more than a thousand nodes (the only cheap route is the whole chain: optimum known by
         # construction), dearer express arcs and a return arc that never pay: basis trees and augmenting paths as deep as
